@@ -145,7 +145,7 @@ def quotient_cover(nodes, edges, inits, max_len=40):
 
 def run_replay(tag, behs, reps_names, timeout=3000):
     f = c.write_behaviours(tag, behs)
-    res = c.run_harness(binp, ['-in', f, '-replicas', ','.join(reps_names), '-reps', '50', '-workers', '6'], timeout=timeout, env=henv)
+    res = c.run_harness(binp, ['-in', f, '-replicas', ','.join(reps_names), '-reps', '200', '-workers', '6'], timeout=timeout, env=henv)
     os.remove(f)
     return res
 
